@@ -1,7 +1,9 @@
 //! Family binary: codecs and negotiation (C14, C15, C25, C57).
 mod c14;
+mod c15;
+mod c25;
 mod c57;
 
 fn main() {
-    mc::main_dispatch(&[("C14", c14::run, c14::META), ("C57", c57::run, c57::META)]);
+    mc::main_dispatch(&[("C14", c14::run, c14::META), ("C15", c15::run, c15::META), ("C25", c25::run, c25::META), ("C57", c57::run, c57::META)]);
 }
